@@ -7,6 +7,7 @@
 package mixed
 
 import (
+	"time"
 	"bytes"
 	"encoding/binary"
 	"encoding/json"
@@ -1132,6 +1133,24 @@ func (wd *World) SplitRLE(u string) (uint64, []byte) {
 
 // adminStep creates, renames or deletes an extra keyvalue instance.  Deletion is asynchronous in the
 // server; its completion signal is the instance leaving the repo's DataInstances.
+// waitDeletions waits for the code's own completion point of background instance / repo deletions (no goroutine inside
+// datastore.(*repoT).deleteData or storage.DeleteDataInstance any more).
+func (wd *World) waitDeletions() error {
+	for i := 0; i < 6000; i++ {
+		var out struct {
+			Running bool `json:"running"`
+		}
+		if err := wd.W.API("c06.deleting", nil, &out); err != nil {
+			return err
+		}
+		if !out.Running {
+			return nil
+		}
+		time.Sleep(5 * time.Millisecond)
+	}
+	return fmt.Errorf("background deletion still running: %w", drv.ErrWatchdog)
+}
+
 func (wd *World) adminStep() (string, error) {
 	var names []string
 	for n := range wd.Extra {
@@ -1159,7 +1178,7 @@ func (wd *World) adminStep() (string, error) {
 			}
 			delete(wd.Side, u)
 			wd.note("delete side repo %s", u[:8])
-			if err := wd.W.Settle(); err != nil {
+			if err := wd.waitDeletions(); err != nil {
 				return "admin repo delete", err
 			}
 			return "admin repo delete", nil
@@ -1257,6 +1276,10 @@ func (wd *World) adminStep() (string, error) {
 			if _, still := ri.DataInstances[name]; !still {
 				delete(wd.Extra, name)
 				wd.note("delete instance %s", name)
+				// the name goes first; the repo log entry and the save of the repo follow in the same background goroutine
+				if err := wd.waitDeletions(); err != nil {
+					return "admin delete", err
+				}
 				return "admin delete " + name, nil
 			}
 			wd.W.Settle()
